@@ -806,7 +806,8 @@ class ExprMixin(object):
             return k.term
         if kd == 'none':
             return z3.StringVal(self.NONE_KEY)
-        if kd == 'opt' and code_of(k.ty.args[0]) == 'S':
+        if (kd == 'opt' and code_of(k.ty.args[0]) == 'S') or kd == 'any':
+            # dynamically typed keys: None or a str (any other key kind is outside the model)
             return z3.If(k.term == VNONE, z3.StringVal(self.NONE_KEY), Val.sval(k.term))
         return None
 
